@@ -10,7 +10,7 @@ Definition gen_walker_ok : bool :=
   gen_dispatch_chain_ok && gen_fallthrough_raises &&
   Z.eqb gen_max_len 10000 &&
   forallb snd gen_function_matches_template &&
-  gen_print_guarded.
+  gen_print_guarded && gen_str_guarded.
 
 Definition gen_entry_ok : bool :=
   forallb (fun s : string * string * string * bool => snd s) gen_execute_sites &&
@@ -27,4 +27,7 @@ Lemma gen_tables_within_spec : tables_within_spec gen_tables = true.
 Proof. vm_compute. reflexivity. Qed.
 
 Lemma gen_print_guarded_true : gen_print_guarded = true.
+Proof. vm_compute. reflexivity. Qed.
+
+Lemma gen_str_guarded_true : gen_str_guarded = true.
 Proof. vm_compute. reflexivity. Qed.
